@@ -1,4 +1,4 @@
-import Juniper.Proofs.TreeGet
+import Juniper.Proofs.TreeHistory
 /-!
 # C03 — the tree stays balanced and half-full: O(log n) work, no retained garbage (property theorems)
 -/
@@ -110,5 +110,24 @@ theorem unique_path (cmp : K → K → Int) (hc : StrictWeak cmp) (t : Tree K V)
   intro e he
   rw [lookup_refines hc e.1 t.root h hbal hw.sorted]
   exact sget_of_mem hc hw.sorted he (hc.refl e.1)
+
+/-- Every tree reachable from `newBtree` by any sequence of `Put`s and `Delete`s — however
+adversarial — is well formed (balanced, half-full, sorted, `size` = number of keys), no operation on
+the way dereferences a nil pointer, and its node identities stay pairwise distinct. -/
+theorem wf_reachable (cmp : K → K → Int) (hc : StrictWeak cmp) (ms : List (Mut K V)) :
+    ∃ t', runMuts cmp (Tree.empty : Tree K V) ms = some t' ∧ WF cmp t' ∧ IdsOK t' ∧
+      len t' = (toList t'.root).length := by
+  obtain ⟨t', h1, h2, _⟩ := inv_runMuts hc ms Tree.empty (inv_empty cmp)
+  exact ⟨t', h1, h2.wf, h2.ids, h2.wf.size⟩
+
+/-- non-vacuity of `wf_reachable`/`wf_delete`: a concrete history with inserts and a delete. -/
+example : ∃ t' : Tree Int Int,
+    runMuts (fun a b => a - b) Tree.empty [.put 3 30, .put 1 10, .put 2 20, .del 3] = some t' ∧
+      toList t'.root = [(1, 10), (2, 20)] := by
+  have hc : StrictWeak (fun a b : Int => a - b) := ⟨by intro a b; omega, by intro a b c; omega⟩
+  obtain ⟨t', h1, _, h3⟩ := inv_runMuts hc [Mut.put 3 30, .put 1 10, .put 2 20, .del 3] (Tree.empty : Tree Int Int) (inv_empty _)
+  refine ⟨t', h1, ?_⟩
+  rw [h3]
+  simp [specMut, sput, serase, Tree.empty, toList_leaf]
 
 end Juniper.Props.C03
